@@ -31,7 +31,8 @@ CLAIMED["C07"] = ("other",
 CLAIMED["C14"] = ("other",
     "Static provenance analysis of lib/lha_decoder.c: the count returned by lha_decoder_read, the increment of the stream position and the length handed to the CRC "
     "routine are the same SSA value and count exactly the bytes memcpy'd into the caller's buffer from offset 0; the request is clamped to declared length - position; "
-    "each copy is min(buffered, remaining request); the cursor advances by the bytes copied and is reset only on refill; progress blocks rise by exactly one per callback. "
+    "each copy is min(buffered, remaining request); the cursor advances by the bytes copied and is reset only on refill; progress blocks rise by exactly one per callback and the callback check follows every "
+    "position update; the two getters return the fields the read path maintains; in every decoder a result of the bit readers is used as data only behind a fact that excludes its failure value (208 uses). "
     "Decides the clauses 'reported length equals bytes returned', 'CRC is over exactly those bytes', 'never exceeds the declared length' structurally. "
     "Not decided: split-invariance as an equality over read histories.",
     "Trusted: clang 14 front end; LLVM sroa/early-cse; irx; the Python fact engine.",
@@ -43,7 +44,8 @@ CLAIMED["C10"] = ("other",
     "every other fopen is read-only; lha_arch_fopen unlinks then opens with O_CREAT|O_EXCL (no O_TRUNC) and wraps that descriptor, lha_arch_symlink unlinks first; "
     "a dangerous symlink of a normal entry becomes a placeholder, real creation of deferred links happens only after input and directory stack are exhausted, "
     "the deferred list stays in decreasing path-length order; the strings appended to the output path start at a byte != '/'; directory metadata is applied "
-    "only to directories whose mkdir succeeded in this run, and the link-following setters (utime/chmod/chown), called from any unit, only receive a path the same call created; "
+    "only to directories whose mkdir succeeded in this run (lha_arch_mkdir reports success only under mkdir(...) == 0), the option-word parser examines every character and sets dry_run for every 'n' "
+    "(cursor steps by one, or past bytes the path's branch facts show to differ from 'n'), and the link-following setters (utime/chmod/chown), called from any unit, only receive a path the same call created; "
     "is_dangerous_symlink is decided against the component scanner (every path through one iteration of its loop either keeps the component open, or closes it under "
     "branch facts that exclude '..', or reports; 'harmless' only at the NUL of a target not starting with '/'). These are necessary conditions of the property, decided for all "
     "archives and option sets at once. One genuine defect is recorded as a known finding (R4d: a deferred link is created through directory components that may be links "
@@ -54,7 +56,9 @@ CLAIMED["C15"] = ("other",
     "Static global-state and wiring analysis (claimed in part): every global and function-local static defined by lib/ is never the target of a store/copy and "
     "table struct types are never written through any pointer, lib/ calls no non-reentrant libc function - hence operations on one reader cannot affect another, "
     "interleaved or on different threads; lha_reader_next_file returns a header only if the state was not EOF and only it and the constructor write the state; the "
-    "unread remainder of a member is skipped before the next header is read and the remaining-bytes counter decreases by exactly the compressed bytes handed out. "
+    "unread remainder of a member is skipped before the next header is read and the remaining-bytes counter decreases by exactly the compressed bytes handed out; the basic reader is advanced exactly under "
+    "curr_file_type in {START, NORMAL} (a held-back member is never dropped), the end-of-directory test compares over exactly strlen(top->path) bytes of the top directory's own path and answers 'nothing to present' "
+    "only with an empty stack or pending input; member-scoped fields are reset when the member changes. "
     "Not decided: the order in which directories and deferred symlinks are re-presented under the three policies (a property of call histories).",
     "Trusted: clang 14 front end; LLVM sroa/early-cse; irx; the Python engines; strict-typing assumption for the 'no store through struct type' rule; the non-reentrant libc deny-list.",
     "static analysis: global mutability classification (store/escape roots), who-may-write field rules, available-facts dataflow and cut sets on LLVM IR (custom checker)", "DESIGN.md §3 C15")
@@ -74,7 +78,9 @@ CLAIMED["C20"] = ("other",
     "returned or handed to an owner on every path to every exit; owning pointer fields are inferred from the stores that put fresh allocations or add_ref'ed headers into them "
     "and each must be released by the owner's free function; an owning field is overwritten only after its old value was released, moved, tested NULL or aliased (named assumptions "
     "for the five sites that rely on 'still NULL', with close_decoder's postcondition as support rule); the conditionally owned current entry is released under each owning state before "
-    "being overwritten and in lha_reader_free; add_ref is paired with a store into an owning list; the status of functions that fail on allocation failure is not dropped. "
+    "being overwritten and in lha_reader_free; add_ref is paired with a store into an owning list; the status of functions that fail on allocation failure is not dropped; "
+    "after a release of the value held by an owning field the field is rewritten or its object released on every path (no dangling owner); a realloc result replaces the pointer it was computed from only "
+    "under result != NULL; a hand-over that depends on the callee's result is not left untested at a return. "
     "This found three leaks and one dropped failure status, all repaired (repo commits 6cf2eaf, f7a84ba, 9ee6bc5, 15e8d10). Quantifies over all paths, hence all archives and call histories. "
     "Not decided: the fault-injection quantifier as such (each failure is noticed and returned; how every caller up the stack reacts is not followed).",
     "Trusted: clang 14 front end; LLVM sroa/early-cse; irx; the Python ownership engine; allocator/releaser vocabulary; named assumptions printed in the evidence (A-null-before:*, list-link).",
@@ -84,7 +90,7 @@ CLAIMED["C17"] = ("proof",
     "All obligations machine-discharged: the loop body of lha_crc16_buf is evaluated in a bit-level affine domain over GF(2) and its 24x16 matrix (16 state bits, 8 data bits -> 16 next-state bits) "
     "equals that of the bitwise CRC-16/ARC step with zero constant term, which covers all 2^24 (state, byte) pairs without evaluating any; the lookup table is verified affine in its index, equal to "
     "the table generated from 0xA001, never written and private to the routine; the routine is a left fold over buf[0..buf_len) from *crc to *crc with no other memory effect, so piecewise == whole; "
-    "every caller starts its accumulator at 0 and uses the raw value. Proof level is appropriate because the property is a finite linear-algebra identity plus a structural fold shape.",
+    "every caller starts its accumulator at 0 and uses the raw value; the decoder's running value is fed exactly the bytes it delivers (C14's identity rules run here too). Proof level is appropriate because the property is a finite linear-algebra identity plus a structural fold shape.",
     "Trusted base: clang 14 front end; LLVM sroa/early-cse; irx; sa/lhsa/gf2.py and props/c17.py; the CRC-16/ARC definition encoded as gf2.crc16_arc_step. A rewrite of the routine that is not a byte-wise straight-line loop is reported unproven (counts as violation).",
     "static analysis: abstract interpretation in a bit-level GF(2)-affine domain (matrix equality against the reference step) + SSA fold-shape rules (custom checker)", "DESIGN.md §3 C17, §2 E4")
 CLAIMED["C05"] = ("other",
@@ -126,7 +132,8 @@ CLAIMED["C09"] = ("other",
     "iterated to a fixed point, exact reads of constant tables. Contracts K1 (extra area and output buffer sizes from each decoder type's own initialiser; extra_size >= sizeof(state) checked) and K2 (input "
     "callbacks write/return at most the requested length). About 4200 enumerated obligations: every load, store, memcpy/memset and callback write; ~96% machine-discharged, the rest under named assumptions with "
     "checked support rules (A-tree: Huffman tree build invariant; A-bits: bit-reader fill level; A-lh1-tree / A-lh1-offset: the -lh1- adaptive tree and offset tables - NOT verified, stated plainly) and the pm1 "
-    "byte-decode trees discharged by an exhaustive table walk. 'No read returns more than asked' for the decoders is the K1-sized output buffer obligation; for lha_decoder_read it is C14.R2. "
+    "byte-decode trees discharged by an exhaustive table walk; at each of the 57 call sites of the tree builders the length passed is the element count of the array passed; an assumption never covers an access whose "
+    "own guard bounds the index by a constant reaching past the array. 'No read returns more than asked' for the decoders is the K1-sized output buffer obligation; for lha_decoder_read it is C14.R2. "
     "Found the -pm2- copy_decode overrun (fixed, repo commit 8a05b58). The suite decodes only encoder-produced streams; over-subscribed tables and out-of-range symbols never occur in it.",
     "Trusted: clang 14 front end; LLVM sroa/inline/simplifycfg/early-cse; irx; sa/lhsa/range.py (soundness of the abstract domain); contracts K1/K2 on foreign code; the named assumptions printed in the evidence.",
     "static analysis: abstract interpretation (intervals + pointer regions + relational trip-count bounds) over inlined LLVM IR with enumerated memory-safety obligations (custom checker)", "DESIGN.md §3 C09, §2 E3, Appendix C")
@@ -147,10 +154,12 @@ CLAIMED["C06"] = ("other",
     "meaning - lha_arch_utime gets header->timestamp and only when it is non-zero; lha_arch_chown gets (unix_uid, unix_gid) of one header in this order under that header's UNIX_UID_GID flag; "
     "lha_arch_chmod gets unix_perms under the UNIX_PERMS flag; lha_arch_fopen for member data gets -1 exactly when the flag is clear and the header's value otherwise; a file's time is set only "
     "after a successful decode (behind the fclose of the output); a directory is created 0700 when permissions are recorded and 0777 otherwise - and inside the arch layer utime receives "
-    "actime = modtime = the timestamp, chown/fchown receive (uid, gid) in order, fchown precedes fchmod on the descriptor just opened. These are necessary conditions of 'every file has its "
+    "actime = modtime = the timestamp, chown/fchown receive (uid, gid) in order, fchown precedes fchmod on the descriptor just opened. Also: the MacBinary envelope is recognised only when length >= 128, version 0 and "
+    "the embedded name equals the member's name over exactly its length; the wildcard matcher conforms to the glob transducer (E9: '*' advances the string only after the rest failed there, '?' and literals consume one "
+    "byte of each, end only with end); the reader's advance rules of C15 (no member dropped around re-presented directories). These are necessary conditions of 'every file has its "
     "recorded modification time and, when recorded, its permission bits [and owner]'; a swapped uid/gid or a wrong flag passes the suite (which checks one or two names per archive) but changes "
     "the operand of the call and is reported. NOT decided, stated plainly: file contents, path construction and parent directories, when directories receive their metadata relative to their "
-    "children, wildcard selection, overwrite policy, the print command, MacBinary stripping - the behavioural clauses of C06 are left to the suite.",
+    "children, overwrite policy, the print command, what MacBinary stripping removes - the behavioural clauses of C06 are left to the suite.",
     "Trusted: clang 14 front end; LLVM sroa/early-cse; irx; the Python fact engine; the flag values 0x01 / 0x02 of lib/public/lha_file_header.h as the meaning of the bits (tied to the decoders by C05 R3).",
     "static analysis: call-site operand provenance (value sources with their path facts) and guarded-site rules on LLVM IR (custom checker)", "DESIGN.md §3 C06")
 
@@ -161,7 +170,7 @@ CLAIMED["C16"] = ("other",
     "number of positions tested are the same value, and on a match exactly the bytes before the matching position are dropped; each refill writes capacity - leadin_len bytes at "
     "leadin + leadin_len and adds the delivered count; buffered bytes are replayed first (min(request, leadin_len), offset 0), dropped, the source read continues right behind them and "
     "the call succeeds iff the request was filled; the read-based skip subtracts what was delivered, never asks for more than remains and succeeds only at zero; the FILE* skip seeks by "
-    "the requested count from the current position and its fread fallback demands every byte it subtracts; '-' opens standard input and any other name a read-only fopen. The suite tries "
+    "the requested count from the current position, passed without narrowing below long, and its fread fallback demands every byte it subtracts; a marker literal is compared over exactly its length; '-' opens standard input and any other name a read-only fopen. The suite tries "
     "seven prefix lengths and one pipe; an off-by-one in the window or the discard passes it and changes a linear form here. NOT decided: which byte patterns are signatures or markers, "
     "the decoy counter, the 256 KiB limit as a number (C13 R4), and the equality of member sequences as such.",
     "Trusted: clang 14 front end; LLVM sroa/inline/early-cse; irx; the Python fact engine and the small linear-form evaluator of props/c16.py; memcmp/fseek/fread semantics.",
